@@ -1,4 +1,5 @@
 mod core;
+mod exec;
 mod harness;
 mod huffman_table;
 mod props;
